@@ -258,7 +258,11 @@ def histLoop (x : Locale) (acc : String) : List String → String
       | .panic => acc ++ " # panic"
       | _ =>
         let rp := Locale.fromBytes y.display == .ok y
-        histLoop y (acc ++ s!" # {renderOut out}@{renderLoc y};rp={b01 rp}") os
+        let (pl, ps, pr, pv, pe) := y.intoParts
+        let pp := match ExtMap.fromBytes pe with
+          | .ok em => Locale.fromParts pl ps pr pv (some em) == y
+          | _ => false
+        histLoop y (acc ++ s!" # {renderOut out}@{renderLoc y};rp={b01 rp};pp={b01 pp}") os
 
 def ansHist (a : List String) : String :=
   match a with
@@ -351,7 +355,7 @@ def specHistLoop (a : Spec.AbsLoc) (acc : String) : List String → String
     | none => acc ++ " # na"
     | some op =>
       let (b, out) := Spec.absStep cldrLikely a op
-      specHistLoop b (acc ++ s!" # {renderOut out}@{renderLocV (Spec.toLocV b)};rp=1") os
+      specHistLoop b (acc ++ s!" # {renderOut out}@{renderLocV (Spec.toLocV b)};rp=1;pp=1") os
 
 def specHist (a : List String) : Option String :=
   match a with
@@ -577,7 +581,7 @@ def answer (line : String) : String :=
     | "eqstr" => match arg 0, arg 1 with
       | some x, some y =>
         match LangId.fromBytes x with
-        | .ok x => s!"ok {b01 (LangId.eqStr x y)} {b01 (Language.eqStr x.language y)}"
+        | .ok x => s!"ok {b01 (LangId.eqStr x y)} {b01 (Language.eqStr x.language y)} str={esc x.display} lang={esc (Language.asStr x.language)}"
         | _ => "err"
       | _, _ => "bad"
     | "conv" => match arg 0 with
